@@ -393,6 +393,7 @@ class Body:
         self.defk = j["def"]
         self.name = j["name"]
         self.kind = j["kind"]
+        self.promoted = j.get("promoted")
         self.item = j["item"]
         self.self_ty = Ty(j["self_ty"]) if j["self_ty"] else None
         self.trait = j["trait"]
